@@ -2043,6 +2043,15 @@ mod tests {
     }
 }
 
+/// Verification hook (feature `verif`): one pending await as `Environment::verif_pending_awaits`
+/// reports it: (awaiter, workers still expected, (worker, (target, status)) answers so far).
+#[cfg(feature = "verif")]
+pub type VerifPendingAwait = (
+    ProcessId,
+    Vec<WorkerId>,
+    Vec<(WorkerId, Vec<(ProcessId, u8)>)>,
+);
+
 /// Verification hook (feature `verif`): read-only view of the resource ownership map.
 #[cfg(feature = "verif")]
 impl<E: Effect> Environment<E> {
@@ -2056,6 +2065,52 @@ impl<E: Effect> Environment<E> {
     pub fn verif_persistent_processes(&self) -> Vec<ProcessId> {
         let mut v: Vec<ProcessId> = self.persistent_processes.iter().copied().collect();
         v.sort_unstable();
+        v
+    }
+
+    /// The process router (pid -> worker), ascending by pid.
+    pub fn verif_router(&self) -> Vec<(ProcessId, WorkerId)> {
+        let mut v: Vec<(ProcessId, WorkerId)> =
+            self.process_router.iter().map(|(p, w)| (*p, *w)).collect();
+        v.sort_unstable();
+        v
+    }
+
+    /// The pending awaits: (awaiter, workers still expected to answer (ascending), answers
+    /// collected so far as (worker, [(target, status)]) ascending by worker and target), ascending
+    /// by awaiter. status: 0 = not completed (`None`), 1 = `Some(Ok(_))`, 2 = `Some(Err(_))`.
+    pub fn verif_pending_awaits(&self) -> Vec<VerifPendingAwait> {
+        let mut v: Vec<VerifPendingAwait> = self
+            .pending_awaits
+            .iter()
+            .map(|(awaiter, pending)| {
+                let mut expected: Vec<WorkerId> =
+                    pending.expected_workers.iter().copied().collect();
+                expected.sort_unstable();
+                let mut responses: Vec<(WorkerId, Vec<(ProcessId, u8)>)> = pending
+                    .responses
+                    .iter()
+                    .map(|(w, results)| {
+                        let mut r: Vec<(ProcessId, u8)> = results
+                            .iter()
+                            .map(|(t, res)| {
+                                let status = match res {
+                                    None => 0u8,
+                                    Some(Ok(_)) => 1u8,
+                                    Some(Err(_)) => 2u8,
+                                };
+                                (*t, status)
+                            })
+                            .collect();
+                        r.sort_unstable();
+                        (*w, r)
+                    })
+                    .collect();
+                responses.sort_unstable_by_key(|(w, _)| *w);
+                (*awaiter, expected, responses)
+            })
+            .collect();
+        v.sort_unstable_by_key(|(a, _, _)| *a);
         v
     }
 }
